@@ -1,3 +1,4 @@
+pub mod c07;
 pub mod scen;
 
 use crate::model::Violation;
@@ -8,6 +9,10 @@ use serde_json::Value;
 pub fn run(ctx: &Ctx) -> i32 {
     if let Some(def) = scen::lookup(ctx.prop) {
         return scen::run(ctx, def);
+    }
+    match ctx.prop {
+        "C07" => return c07::run(ctx),
+        _ => {}
     }
     eprintln!("no check registered for {}", ctx.prop);
     2
